@@ -25,6 +25,7 @@ def run(tier):
   cc.model_check(rep, 'MC_Required_quick' if tier == 'quick' else 'MC_Required_thorough', timeout=3400)
   n = 200 if tier == 'quick' else 4000
   cc.replay_behaviours(rep, 'GinCore_Sim_required', num=n, nontrivial=_nontrivial, generate=n * 6)
+  cc.trace_validate(rep, 50 if tier == 'quick' else 600, seed_off=110)
   return rep.finish()
 
 
